@@ -316,6 +316,10 @@ def check_config(sh, mods, pars, sc, fc, om, case, full=True):
     ok = True
     # ---- C route
     C = tr.Ctransform(pars)
+    # a second computer for another experiment is made (and stays alive) before the first one is used: each object answers for the
+    # parameter set it was made with
+    other = tr.Ctransform(dict(pars, wavelength=pars["wavelength"] * 1.7, wedge=pars["wedge"] + 3.0, chi=pars["chi"] - 2.0,
+                               omegasign=-pars["omegasign"], distance=pars["distance"] * 1.3, y_center=pars["y_center"] + 40.0))
     n = len(sc)
     # the caller's output arrays arrive filled with NaN: a row that is not written stays visible
     cx = C.sf2xyz(sc, fc, out=np.full((n, 3), np.nan))
@@ -332,6 +336,9 @@ def check_config(sh, mods, pars, sc, fc, om, case, full=True):
     ok &= cmp(sh, "Ctransform.xyz2geometry:ds", case, geo[:, 2], ds, 1e-12)
     ok &= cmp(sh, "Ctransform.xyz2geometry:g", case, geo[:, 3:6].T, g, 1e-12)
     if not ok:
+        return False
+    if any(C.pars[k] != pars[k] for k in C.pnames) or other.pars["wedge"] != pars["wedge"] + 3.0:
+        sh.violation("Ctransform.pars:not-the-parameter-set-the-object-was-made-with", case, {})
         return False
     # ---- columnfile fast / slow
     po = par_mod.parameters(**pars)
